@@ -429,4 +429,270 @@ theorem runsOfList_append (a b : List Node) : runsOfList (a ++ b) = runsOfList a
   | nil => simp [runsOfList]
   | cons n rest ih => simp [runsOfList, ih]
 
+/-! ### the depth limit of `decodeContent` -/
+
+/-- `decodeContent` entered with `d ≤ maxInlineDepth`: it succeeds exactly when the containers
+below nest no deeper than the limit allows, and then it yields `runsOfList` -/
+theorem decodeNode_eq (n : Node) : ∀ d, d ≤ maxInlineDepth →
+    decodeNode d n = if d + nestNode n ≤ maxInlineDepth then some (runsOfNode n) else none := by
+  induction n using Node.rec (motive_2 := fun l => ∀ d, d ≤ maxInlineDepth →
+      decodeList d l = if d + nestList l ≤ maxInlineDepth then some (runsOfList l) else none) with
+  | elem tag attrs kids ih =>
+    intro d hd
+    simp only [decodeNode, nestNode, runsOfNode]
+    split
+    · simp [hd]
+    · split
+      · by_cases h : d + 1 > maxInlineDepth
+        · have h2 : ¬ (d + (nestList kids + 1) ≤ maxInlineDepth) := by omega
+          simp [h, h2]
+        · have h1 : d + 1 ≤ maxInlineDepth := by omega
+          simp only [h, if_false]
+          rw [ih (d + 1) h1]
+          have : (d + 1 + nestList kids ≤ maxInlineDepth) ↔ (d + (nestList kids + 1) ≤ maxInlineDepth) := by omega
+          simp only [this]
+      · simp [hd]
+  | text s => intro d hd; simp [decodeNode, nestNode, runsOfNode, hd]
+  | nil => rename_i d hd; simp [decodeList, nestList, runsOfList, hd]
+  | cons n rest ihn ihr =>
+    rename_i d hd
+    simp only [decodeList, nestList, runsOfList]
+    rw [ihn d hd, ihr d hd]
+    by_cases h1 : d + nestNode n ≤ maxInlineDepth
+    · by_cases h2 : d + nestList rest ≤ maxInlineDepth
+      · have : d + max (nestNode n) (nestList rest) ≤ maxInlineDepth := by omega
+        simp [h1, h2, this]
+      · have : ¬ (d + max (nestNode n) (nestList rest) ≤ maxInlineDepth) := by omega
+        simp [h1, h2, this]
+    · have : ¬ (d + max (nestNode n) (nestList rest) ≤ maxInlineDepth) := by omega
+      simp [h1, this]
+
+theorem decodeList_eq (l : List Node) : ∀ d, d ≤ maxInlineDepth →
+    decodeList d l = if d + nestList l ≤ maxInlineDepth then some (runsOfList l) else none := by
+  induction l with
+  | nil => intro d hd; simp [decodeList, nestList, runsOfList, hd]
+  | cons n rest ih =>
+    intro d hd
+    simp only [decodeList, nestList, runsOfList]
+    rw [decodeNode_eq n d hd, ih d hd]
+    by_cases h1 : d + nestNode n ≤ maxInlineDepth
+    · by_cases h2 : d + nestList rest ≤ maxInlineDepth
+      · have : d + max (nestNode n) (nestList rest) ≤ maxInlineDepth := by omega
+        simp [h1, h2, this]
+      · have : ¬ (d + max (nestNode n) (nestList rest) ≤ maxInlineDepth) := by omega
+        simp [h1, h2, this]
+    · have : ¬ (d + max (nestNode n) (nestList rest) ≤ maxInlineDepth) := by omega
+      simp [h1, this]
+
+/-- the recursion of `decodeContent` never goes deeper than `maxInlineDepth + 1` (the last
+level being the call that is refused at once) -/
+theorem reachNode_le (n : Node) : ∀ d, d ≤ maxInlineDepth → reachNode d n ≤ maxInlineDepth + 1 := by
+  induction n using Node.rec (motive_2 := fun l => ∀ d, d ≤ maxInlineDepth → reachList d l ≤ maxInlineDepth + 1) with
+  | elem tag attrs kids ih =>
+    intro d hd
+    simp only [reachNode]
+    split
+    · omega
+    · split
+      · split
+        · omega
+        · apply ih; omega
+      · omega
+  | text s => intro d hd; simp only [reachNode]; omega
+  | nil => rename_i d hd; simp only [reachList]; omega
+  | cons n rest ihn ihr =>
+    rename_i d hd
+    simp only [reachList]
+    have := ihn d hd
+    have := ihr d hd
+    omega
+
+theorem reachList_le (l : List Node) : ∀ d, d ≤ maxInlineDepth → reachList d l ≤ maxInlineDepth + 1 := by
+  induction l with
+  | nil => intro d hd; simp only [reachList]; omega
+  | cons n rest ih =>
+    intro d hd
+    simp only [reachList]
+    have := reachNode_le n d hd
+    have := ih d hd
+    omega
+
+/-- `k` inline containers `ctag` around `inner` -/
+def wrapN (ctag : Str) : Nat → List Node → List Node
+  | 0, inner => inner
+  | k + 1, inner => [.elem ctag [] (wrapN ctag k inner)]
+
+theorem nest_wrapN (ctag : Str) (hc : containers.contains (localName ctag) = true) (hr : (localName ctag == sR) = false)
+    (inner : List Node) : ∀ k, nestList (wrapN ctag k inner) = k + nestList inner := by
+  intro k
+  induction k with
+  | zero => simp [wrapN]
+  | succ k ih =>
+    simp only [wrapN, nestList, nestNode, hr, hc, Bool.false_eq_true, if_false, if_true]
+    rw [ih]; omega
+
+theorem runs_wrapN (ctag : Str) (hc : containers.contains (localName ctag) = true) (hr : (localName ctag == sR) = false)
+    (inner : List Node) : ∀ k, runsOfList (wrapN ctag k inner) = runsOfList inner := by
+  intro k
+  induction k with
+  | zero => simp [wrapN]
+  | succ k ih =>
+    simp only [wrapN, runsOfList, runsOfNode, hr, hc, Bool.false_eq_true, if_false, if_true, List.append_nil]
+    exact ih
+
+/-! ### `limitTableGrid` -/
+
+/-- every span of the table set to 1 (what `limitTableGrid` does beyond the limit) -/
+def resetSpans (rows : List (List Cell)) : List (List Cell) :=
+  rows.map fun row => row.map fun c => { c with colSpan := 1, rowSpan := 1 }
+
+/-- the widest row counted in cells -/
+def widest (rows : List (List Cell)) : Nat := rows.foldl (fun m row => max m row.length) 0
+
+theorem limit_cases (rows : List (List Cell)) : limitTableGrid rows = rows ∨ limitTableGrid rows = resetSpans rows := by
+  unfold limitTableGrid resetSpans
+  split
+  · exact Or.inl rfl
+  · exact Or.inr rfl
+
+/-- within the limit (rows x spanned columns ≤ 2^20) the table is left as it is -/
+theorem limit_within (rows : List (List Cell)) (h : rows.length * colCount rows ≤ maxTableGridCells) :
+    limitTableGrid rows = rows := by
+  unfold limitTableGrid
+  by_cases hc : colCount rows = 0
+  · simp [hc]
+  · have hpos : 0 < colCount rows := Nat.pos_of_ne_zero hc
+    have : rows.length ≤ maxTableGridCells / colCount rows := (Nat.le_div_iff_mul_le hpos).mpr h
+    simp [this]
+
+/-- a table without spans is left as it is, whatever its size -/
+theorem limit_nospans (rows : List (List Cell)) (h : hasSpans rows = false) : limitTableGrid rows = rows := by
+  unfold limitTableGrid
+  simp [h]
+
+/-- beyond the limit a table that has spans loses all of them -/
+theorem limit_beyond (rows : List (List Cell)) (hs : hasSpans rows = true)
+    (h : rows.length * colCount rows > maxTableGridCells) : limitTableGrid rows = resetSpans rows := by
+  unfold limitTableGrid resetSpans
+  have hc : colCount rows ≠ 0 := by
+    intro h0; rw [h0] at h; simp at h
+  have hpos : 0 < colCount rows := Nat.pos_of_ne_zero hc
+  have : ¬ rows.length ≤ maxTableGridCells / colCount rows := by
+    intro hle
+    have := (Nat.le_div_iff_mul_le hpos).mp hle
+    omega
+  simp [hs, hc, this]
+
+/-- the limit touches spans only: texts, continuation flags, the number of rows and of cells
+in every row stay -/
+theorem limit_content (rows : List (List Cell)) :
+    (limitTableGrid rows).map (·.map fun c => (c.text, c.cont)) = rows.map (·.map fun c => (c.text, c.cont)) := by
+  cases limit_cases rows with
+  | inl h => rw [h]
+  | inr h => rw [h]; simp [resetSpans, List.map_map, Function.comp_def]
+
+theorem limit_length (rows : List (List Cell)) : (limitTableGrid rows).length = rows.length := by
+  cases limit_cases rows with
+  | inl h => rw [h]
+  | inr h => rw [h]; simp [resetSpans]
+
+theorem foldl_add_const (f : Cell → Nat) : ∀ (l : List Cell) (a : Nat), l.foldl (fun s c => s + f c) a = a + (l.map f).sum := by
+  intro l
+  induction l with
+  | nil => intro a; simp
+  | cons c cs ih => intro a; simp only [List.foldl_cons, List.map_cons, List.sum_cons]; rw [ih]; omega
+
+theorem foldl_max_mono (f g : List Cell → Nat) (h : ∀ r, f r ≤ g r) : ∀ (rows : List (List Cell)) (a b : Nat), a ≤ b →
+    rows.foldl (fun m row => max m (f row)) a ≤ rows.foldl (fun m row => max m (g row)) b := by
+  intro rows
+  induction rows with
+  | nil => intro a b hab; simpa using hab
+  | cons r rs ih =>
+    intro a b hab
+    simp only [List.foldl_cons]
+    apply ih
+    have := h r
+    omega
+
+/-- a table none of whose cells spans more than one column is as wide as its widest row in cells -/
+theorem colCount_le_widest (rows : List (List Cell)) (h : ∀ row ∈ rows, ∀ c ∈ row, c.colSpan ≤ 1) :
+    colCount rows ≤ widest rows := by
+  unfold colCount widest
+  have key : ∀ (rows : List (List Cell)), (∀ row ∈ rows, ∀ c ∈ row, c.colSpan ≤ 1) → ∀ a b : Nat, a ≤ b →
+      rows.foldl (fun m row => max m (row.foldl (fun s c => s + c.colSpan) 0)) a ≤ rows.foldl (fun m row => max m row.length) b := by
+    intro rows
+    induction rows with
+    | nil => intro _ a b hab; simpa using hab
+    | cons r rs ih =>
+      intro hr a b hab
+      simp only [List.foldl_cons]
+      apply ih (fun row hrow => hr row (List.mem_cons_of_mem _ hrow))
+      have h1 : r.foldl (fun s c => s + c.colSpan) 0 ≤ r.length := by
+        rw [foldl_add_const (fun c => c.colSpan) r 0]
+        have hr' := hr r List.mem_cons_self
+        clear ih hr
+        induction r with
+        | nil => simp
+        | cons c cs ihc =>
+          simp only [List.map_cons, List.sum_cons, List.length_cons]
+          have := hr' c List.mem_cons_self
+          have := ihc (fun x hx => hr' x (List.mem_cons_of_mem _ hx))
+          omega
+      omega
+  exact key rows h 0 0 (Nat.le_refl 0)
+
+theorem hasSpans_false (rows : List (List Cell)) (h : hasSpans rows = false) :
+    ∀ row ∈ rows, ∀ c ∈ row, c.colSpan ≤ 1 ∧ c.rowSpan ≤ 1 := by
+  intro row hrow c hc
+  unfold hasSpans at h
+  rw [List.any_eq_false] at h
+  have h1 := h row hrow
+  have h1' : (row.any fun c => decide (c.colSpan > 1) || decide (c.rowSpan > 1)) = false := by simpa using h1
+  rw [List.any_eq_false] at h1'
+  have h2 := h1' c hc
+  simp only [Bool.or_eq_true, decide_eq_true_eq, not_or, Nat.not_lt] at h2
+  exact h2
+
+theorem widest_resetSpans (rows : List (List Cell)) : widest (resetSpans rows) = widest rows := by
+  unfold widest resetSpans
+  rw [List.foldl_map]
+  simp
+
+/-- **the grid after `limitTableGrid`** (rows x spanned columns) holds at most 2^20 cells, or
+no more cells than rows x the widest row counted in cells - no span multiplies it -/
+theorem limit_grid_bound (rows : List (List Cell)) :
+    rows.length * colCount (limitTableGrid rows) ≤ max maxTableGridCells (rows.length * widest rows) := by
+  have hreset : rows.length * colCount (resetSpans rows) ≤ rows.length * widest rows := by
+    apply Nat.mul_le_mul_left
+    rw [← widest_resetSpans]
+    apply colCount_le_widest
+    intro row hrow c hc
+    simp only [resetSpans, List.mem_map] at hrow
+    obtain ⟨r0, _, rfl⟩ := hrow
+    simp only [List.mem_map] at hc
+    obtain ⟨c0, _, rfl⟩ := hc
+    exact Nat.le_refl 1
+  by_cases hs : hasSpans rows = true
+  · by_cases hw : rows.length * colCount rows ≤ maxTableGridCells
+    · rw [limit_within rows hw]; omega
+    · rw [limit_beyond rows hs (by omega)]; omega
+  · have hs' : hasSpans rows = false := by simpa using hs
+    rw [limit_nospans rows hs']
+    have := colCount_le_widest rows (fun row hrow c hc => (hasSpans_false rows hs' row hrow c hc).1)
+    have := Nat.mul_le_mul_left rows.length this
+    omega
+
+/-- the width of a table depends on the column spans only -/
+theorem colCount_strip (a b : List (List Cell)) (h : stripRows a = stripRows b) : colCount a = colCount b := by
+  have key : ∀ rows : List (List Cell), colCount rows =
+      (stripRows rows).foldl (fun m row => max m (row.foldl (fun s c => s + c.2.1) 0)) 0 := by
+    intro rows
+    unfold colCount stripRows
+    rw [List.foldl_map]
+    congr 1
+    funext m row
+    rw [List.foldl_map]
+    rfl
+  rw [key a, key b, h]
+
 end Tabula.Docx
